@@ -109,8 +109,8 @@ GCall ==
 
 GLedger ==
   /\ Started /\ Code(world, "ctrl") = "ctrl"
-  /\ \E via \in {Pick(<<"deposit", "deposit", "withdraw">>)}, holder \in {RandomElement(Senders)}, spell \in {RandomElement({"ordi", "OrDi", "sats"})}, amt \in {RandomElement({0, 1, 2, 5, MAXV - 1, MAXV})} :
-       LET tk == IF spell = "sats" THEN "sats" ELSE "ordi"
+  /\ \E via \in {Pick(<<"deposit", "deposit", "withdraw">>)}, holder \in {RandomElement(Senders)}, spell \in {RandomElement({"ordi", "OrDi", "sats", "U:ETH", "u:eth"})}, amt \in {RandomElement({0, 1, 2, 5, MAXV - 1, MAXV})} :
+       LET tk == IF spell = "sats" THEN "sats" ELSE IF spell \in {"U:ETH", "u:eth"} THEN "u:eth" ELSE "ordi"
            lc == [fn |-> IF via = "deposit" THEN "mint" ELSE "burn", on |-> "ctrl", tk |-> tk, spell |-> spell,
                   a |-> holder, b |-> "zero", v |-> amt]
            tx == Tx("call", "idx", "ctrl", NULL, <<>>, lc, "ample")
@@ -184,6 +184,15 @@ GEthCallCreate ==
   /\ Started /\ cur.n = 0
   /\ \E from \in {RandomElement(Senders)}, ck \in {RandomElement({"cell", "bad"})} :
        Push(ReadStep("ethcall", Tx("create", from, NULL, ck, <<>>, NoLc, "ample")))
+  /\ UNCHANGED <<chain, cur, world, pool, snaps, maxEver, dur, ctr>>
+
+(* a multi-call whose middle element is rejected by the EVM itself (sender with code) after an earlier element wrote state *)
+GCallManyErr ==
+  /\ Started /\ cur.n = 0 /\ Cells # {}
+  /\ \E from \in {RandomElement(Senders)}, to \in {RandomElement(Cells)}, bad \in {RandomElement(Cells)}, o1 \in {RandomElement(Progs)}, est \in {Pick(<<FALSE, FALSE, TRUE>>)} :
+       Push([op |-> "callmany", estimate |-> est,
+             calls |-> <<ReadStep("c", ReadTx(from, to, <<Sstore(4, 4), Op("create")>>)), ReadStep("c", ReadTx(from, to, o1)),
+                         ReadStep("c", ReadTx(bad, to, <<Sstore(4, 5)>>)), ReadStep("c", ReadTx(from, to, o1))>>])
   /\ UNCHANGED <<chain, cur, world, pool, snaps, maxEver, dur, ctr>>
 
 GCallMany ==
@@ -295,7 +304,7 @@ Weighted ==
     [] Focus = "proto"  -> GCall \/ GDeploy \/ GFinalise \/ GBad \/ GBad \/ GTransact \/ GLedger \/ GMine
     [] Focus = "pool"   -> GTransact \/ GTransact \/ GTransact \/ GFinalise \/ GFinalise \/ GMine \/ GCall \/ GReorg \/ GClear
     [] Focus = "ledger" -> GLedger \/ GLedger \/ GUserLedger \/ GUserLedger \/ GFinalise \/ GReorg \/ GCommit \/ GCall
-    [] Focus = "reads"  -> GEthCall \/ GEthCall \/ GEthCallCreate \/ GCallMany \/ GPredicted \/ GPredicted \/ GCall \/ GDeploy \/ GFinalise \/ GFinalise
+    [] Focus = "reads"  -> GEthCall \/ GEthCall \/ GEthCallCreate \/ GCallMany \/ GCallManyErr \/ GPredicted \/ GPredicted \/ GCall \/ GDeploy \/ GFinalise \/ GFinalise
                              \/ GCommit \/ GReorg \/ GTransact \/ GLedger
     [] Focus = "logs"   -> IF Cardinality(Cells) < 2 THEN (GDeployCell \/ GFinalise)
                            ELSE (GLogCall \/ GLogCall \/ GLogCall \/ GFinalise \/ GFinalise \/ GCommit)
